@@ -372,6 +372,27 @@ pub fn run_fail_real(ctx: &Ctx, salt: u64, cases: u32) -> (Stats, Vec<drive::Fai
     drive::drive_opts(ctx, salt, cases, 16, || fail_strategy(5), fail_real)
 }
 
+pub fn run_c03(ctx: &Ctx) -> drive::Report
+{
+    // real-fs slice of C03: a producer whose command was killed has not "completely built" its targets, so no command that
+    // reads them may start (on the in-memory System a command cannot die half-way)
+    let mut rep = crate::verif::props::schedp::run_c03(ctx);
+    let mut real = run_fail_real(ctx, 103, ctx.tier.pick(24, 300));
+    for f in real.1.iter_mut() { f.case = serde_json::json!({ "real_fs_fail": f.case }); }
+    rep.absorb(real);
+    rep
+}
+
+pub fn replay_c03(ctx: &Ctx, case: &serde_json::Value) -> Result<(), String>
+{
+    if let Some(inner) = case.get("real_fs_fail")
+    {
+        let c: RealFailCase = drive::parse_case(inner)?;
+        return fail_real(&c, &mut Stats::default());
+    }
+    crate::verif::props::schedp::replay_c03(ctx, case)
+}
+
 pub fn run_c04(ctx: &Ctx) -> drive::Report
 {
     let mut rep = crate::verif::props::schedp::run_c04(ctx);
